@@ -300,6 +300,14 @@ class Server(object):
             app.errors.append('unexpected login frame id %d while waiting '
                               'for %r' % (pid, app.waiting))
 
+    def _pending_all_in_this_burst(self, app):
+        """Every unanswered plugin request left the server in the very
+        burst that is being written now (so no answer to it can have been
+        written before the client sees what follows)."""
+        sent_at = getattr(app, 'plugin_sent_at', {})
+        return all(sent_at.get(k) == self.sim.now
+                   for k, v in app.plugin_outstanding.items() if v > 0)
+
     def _plugins_pending(self, app):
         skip = app.beh.get('no_wait_plugins') or ()
         return any(v > 0 for k, v in app.plugin_outstanding.items()
@@ -350,7 +358,10 @@ class Server(object):
                       'success') and \
                     self._plugins_pending(app) and not (
                         app.beh.get('pipeline_plugins') and
-                        op == 'encrypt'):
+                        (op == 'encrypt' or
+                         (app.beh['pipeline_plugins'] == 'all' and
+                          op != 'success' and
+                          self._pending_all_in_this_burst(app)))):
                 app.waiting = 'plugins'
                 return
             app.login_pc += 1
@@ -382,6 +393,9 @@ class Server(object):
                     continue
                 app.plugin_outstanding[mid] = \
                     app.plugin_outstanding.get(mid, 0) + 1
+                if not hasattr(app, 'plugin_sent_at'):
+                    app.plugin_sent_at = {}
+                app.plugin_sent_at[mid] = self.sim.now
                 self._send(app, ids['cb.login.plugin_request'],
                            varint(mid) + string(channel) +
                            bytes.fromhex(data_hex), 'plugin-request', mid)
